@@ -4,6 +4,7 @@ package interp
 
 import (
 	"encoding/json"
+	"go/types"
 	"os"
 	"sort"
 	"strconv"
@@ -89,4 +90,42 @@ func init() {
 	vrtIntrinsics["vrtSchemaKeys"] = func(fr *frame, a []value) value {
 		return valStrs(schemaKeys(a[0].(string)))
 	}
+	// vrtSchemaTree() map[string]any: the compose JSON schema of the tree under test, parsed
+	vrtIntrinsics["vrtSchemaTree"] = func(fr *frame, a []value) value {
+		b, err := os.ReadFile(SchemaPath)
+		if err != nil {
+			return (*omap)(nil)
+		}
+		var doc interface{}
+		if json.Unmarshal(b, &doc) != nil {
+			return (*omap)(nil)
+		}
+		m, _ := unwrapAny(fromNativeJSON(doc)).(*omap)
+		return m
+	}
+}
+
+func fromNativeJSON(v interface{}) value {
+	switch x := v.(type) {
+	case nil:
+		return iface{}
+	case []interface{}:
+		out := make([]value, len(x))
+		for k, e := range x {
+			out[k] = fromNativeJSON(e)
+		}
+		return asAny(out)
+	case map[string]interface{}:
+		keys := make([]string, 0, len(x))
+		for k := range x {
+			keys = append(keys, k)
+		}
+		sort.Strings(keys)
+		m := makeMap(types.Typ[types.String], 0).(*omap)
+		for _, k := range keys {
+			m.insert(nil, k, fromNativeJSON(x[k]))
+		}
+		return asAny(m)
+	}
+	return asAny(v)
 }
